@@ -9,7 +9,7 @@ PID = "C07"
 ANCHORS = ["pyoma2.functions.fdd:EFDD_mpe", "pyoma2.functions.fdd:SDOF_bellandMS", "pyoma2.functions.fdd:FDD_mpe", "pyoma2.algorithms.fdd:EFDD.mpe"]
 REQUIRED_MONITORS = ["truth@EFDD_mpe(EFDD)", "truth@EFDD_mpe(FSDD)", "scale-invariance(EFDD)", "scale-invariance(FSDD)", "truth@EFDD.mpe(class)", "truth@FSDD.mpe(class)"]
 ALL_STATES = [f"nxseg={n}" for n in (1024, 2048, 4096, 8192)] + ["xi<3%", "xi>4%", "fn<0.08fs", "fn>0.2fs", "bandwidth<6 lines", "same array object analysed twice with different content"]
-REQUIRED_STATES = ["fs below 0.3 Hz (slow monitoring record)", "fs above 3 kHz", "EFDD_mpe called with method / DF1 / DF2 by position", "nxseg=1024", "nxseg=2048", "nxseg=4096", "xi<3%", "xi>4%", "same array object analysed twice with different content", "Fortran-ordered spectral matrix", "pick given as an integer", "class created with the default estimator"]
+REQUIRED_STATES = ["as many requests as channels", "analysis band wider than the natural frequency (reaches below 0 Hz)", "fs below 0.3 Hz (slow monitoring record)", "fs above 3 kHz", "EFDD_mpe called with method / DF1 / DF2 by position", "nxseg=1024", "nxseg=2048", "nxseg=4096", "xi<3%", "xi>4%", "same array object analysed twice with different content", "Fortran-ordered spectral matrix", "pick given as an integer", "class created with the default estimator"]
 RULE = ("exactly the quantifier's class: analytic SDOF spectral density |H(f)|^2 phi phi^T + 1e-9 full-rank floor on the grid k fs/nxseg, fn in "
         "[0.04,0.25] fs, xi in [2,5] %, half-power bandwidth >= 4 lines, >= 30 periods in the half record, 2..6 channels, real shapes, "
         "DF2 in [4,10] bandwidths, default sppk/npmax/MAClim; oracle = the statement's numbers (MAC >= 0.999, 2.5 % frequency, 15 % damping) "
@@ -58,6 +58,12 @@ def draw(rng, nxs=(1024, 2048, 4096, 8192)):
         W = rng.standard_normal((nch, nch))
         S = S + (W @ W.T)[:, :, None] * 1e-9 * np.max(S)
         DF2 = float(rng.uniform(4, 10) * bw)
+        draw.wide = False
+        if rng.random() < 0.2:
+            # "at least four bandwidths" has no upper end: a generous band (the documented default is 1 Hz, whatever the mode) reaches below
+            # 0 Hz and beyond Nyquist, where the axis simply ends
+            DF2 = float(rng.uniform(1.0, 4.0) * fn)
+            draw.wide = True
         DF1 = float(max(2 * df, 0.1 * bw))
         return nxseg, fs, nch, fn, xi, df, bw, freq, phi, S.astype(complex), DF1, DF2
     raise RuntimeError("generator")
@@ -91,6 +97,8 @@ def states(ctx, nxseg, fs, fn, xi, df, bw):
         ctx.state("fn>0.2fs")
     if bw < 6 * df:
         ctx.state("bandwidth<6 lines")
+    if getattr(draw, "wide", False):
+        ctx.state("analysis band wider than the natural frequency (reaches below 0 Hz)")
     if fs < 0.3:
         ctx.state("fs below 0.3 Hz (slow monitoring record)")
     if fs > 3e3:
@@ -120,6 +128,17 @@ def run_function(ctx, rng):
             ctx.check(np.array_equal(Fp, Fn) and np.array_equal(Xp, Xi), f"{method}:positional_call_differs",
                       lambda: f"EFDD_mpe(Sy, freq, dt, sel, 'per', {method!r}, DF1, DF2) gives fn={np.ravel(Fp)}, xi={np.ravel(Xp)}; with keywords fn={np.ravel(Fn)}, xi={np.ravel(Xi)} {info}")
         judge(ctx, f"truth@EFDD_mpe({method})", f"{method}", Fn, Xi, Phi, fn, xi, phi, info)
+        if rng.random() < 0.3:
+            # as many requests as channels (here: the bell's own lines next to the peak, each of which leads to the same mode): one column of the
+            # shape table per request, whatever the two counts are
+            picks = [float(fn + 0.4 * df * (j - (nch - 1) / 2)) for j in range(nch)]
+            Fm, Xm, Pm, _ = fdd.EFDD_mpe(S, freq, 1 / fs, picks, "per", method=method, DF1=DF1, DF2=DF2)
+            ctx.state("as many requests as channels")
+            Fm, Xm = np.ravel(Fm), np.ravel(Xm)
+            if ctx.check(np.shape(Fm) == (nch,) and np.shape(Xm) == (nch,) and np.shape(Pm) == (nch, nch), f"{method}:multi_request_shape",
+                         lambda: f"{method}: {nch} requests on {nch} channels: shapes {np.shape(Fm)} {np.shape(Xm)} {np.shape(Pm)}"):
+                for j in range(nch):
+                    judge(ctx, f"truth@EFDD_mpe({method})", f"{method}_request_{'first' if j == 0 else 'later'}", Fm[j:j + 1], Xm[j:j + 1], Pm[:, j:j + 1], fn, xi, phi, info + f" [request {j} of {nch}]")
         Fn2, Xi2, Phi2, _ = fdd.EFDD_mpe(S * c, freq, 1 / fs, [fn], "per", method=method, DF1=DF1, DF2=DF2)
         ctx.ev(f"scale-invariance({method})")
         d = max(abs(np.ravel(Fn2)[0] - np.ravel(Fn)[0]) / fn, abs(np.ravel(Xi2)[0] - np.ravel(Xi)[0]) / xi)
